@@ -144,6 +144,10 @@ func c09(c *core.Ctx) {
 				}
 				k.Count("lz_shared_"+lzClass(leadingZeros(sh)), 1)
 				k.Distinct(fmt.Sprintf("sh|%d|%s|%s|lz%s", gi, bigClass(x, p), bigClass(y, p), lzClass(leadingZeros(sh))))
+				if k.WantSample() && x.BitLen() > 64 && y.BitLen() > 64 {
+					w["shared_secret"] = core.Hex(sh)
+					k.Sample(w)
+				}
 			}
 		}
 	})
@@ -294,6 +298,9 @@ func c09(c *core.Ctx) {
 			}
 			k.Count(fmt.Sprintf("fault_at_read_%d", failAt), 1)
 			k.Distinct(fmt.Sprintf("fault|%d|%d", failAt, mode))
+			if k.WantSample() {
+				k.Sample(M{"fault": "crypto/rand.Reader fails", "fail_at_read": failAt, "mode": mode, "GenerateRandomNumber": "error, nil", "NewIKESAKey": "error, nil key, nil public value"})
+			}
 		}
 	})
 	c.Require("lz_shared_1", "lz_shared_100+", "lz_public_100+", "below_minimum_retried", "fault_at_read_0", "lz_shared_searched")
